@@ -87,9 +87,10 @@ class Env:
 
     def __init__(self):
         import bs4
-        self.soup = bs4.BeautifulSoup('<div><p class="k"></p><p></p><p></p><p></p><i></i></div>', 'html.parser')
+        self.soup = bs4.BeautifulSoup('<div><p class="k"></p><p></p><p></p><p></p><i></i><b></b></div>', 'html.parser')
         self.ps = self.soup.find_all('p')
         self.i = self.soup.find('i')
+        self.b = self.soup.find('b')      # carries the class as a plain STRING (as XML trees do)
 
     def set(self, s1):
         vals = [s1, s1 + 'x', 'x' + s1, s1[:-1]]
@@ -103,6 +104,10 @@ class Env:
         # an <i> carrying the same id/class/attribute but a different type: 'p#..' must not pick it
         self.i['id'] = s1
         self.i['a'] = s1
+        if s1 and not (set(s1) & CSS_WS):
+            self.b['class'] = s1 + ' k2'
+        else:
+            self.b['class'] = 'k2'
 
 
 def check_string(sv, env, s, res):
@@ -132,7 +137,8 @@ def check_string(sv, env, s, res):
     forms = [('#', '#' + esc, [target, env.i]), ('[a=]', '[a=' + esc + ']', [target, env.i]),
              ('compound', 'p#' + esc + '.k', [target])]
     if has_class:
-        forms.append(('.', '.' + esc, [target]))
+        forms.append(('.', '.' + esc, [target, env.b]))
+        forms.append(('.string', 'b.' + esc + '.k2', [env.b]))
     for form, pat, want in forms:
         try:
             with shard.deadline(10):
@@ -140,7 +146,7 @@ def check_string(sv, env, s, res):
                 sel = c.selectors[0]
                 if form == '#':
                     parsed = sel.ids
-                elif form == '.':
+                elif form in ('.', '.string'):
                     parsed = sel.classes
                 elif form == 'compound':
                     parsed = (sel.tag.name, sel.ids, sel.classes)
@@ -154,7 +160,9 @@ def check_string(sv, env, s, res):
         res.evaluations += 1
         if form == '#' and parsed != (s1,):
             return sig_for('parse', form, s), f'{pat!r} parsed ids {parsed!r}, want {(s1,)!r}'
-        if form == '.' and parsed != (s1,):
+        if form == '.string':
+            parsed = (s1,) if parsed == (s1, 'k2') else parsed
+        if form in ('.', '.string') and parsed != (s1,):
             return sig_for('parse', form, s), f'{pat!r} parsed classes {parsed!r}, want {(s1,)!r}'
         if form == 'compound' and parsed != ('p', (s1,), ('k',)):
             return sig_for('parse', form, s), f'{pat!r} parsed {parsed!r}: escape output leaked into the surrounding selector'
